@@ -777,7 +777,8 @@ func (r *yieldRewriter) rewriteReturnAndForSwitchInitStmtInYieldFun(body *ast.Bl
 			}
 
 		case *ast.ForStmt:
-			if inYieldFunc() && isDefineStmt(n.Init) {
+			// (a loop without yield stays as it is: its variable is per-iteration when the language version says so)
+			if inYieldFunc() && isDefineStmt(n.Init) && r.rewriter.containsYield(r.pkg, X.Block(n)) {
 				init := n.Init
 				n.Init = nil
 				n.For = token.NoPos
